@@ -46,6 +46,11 @@ ENTRIES = [
     M("W-hopper-ctrl-weight-from-forward", "C17", "C17.15", ("lerax/env/mujoco/hopper.py", "self.ctrl_cost_weight = jnp.array(ctrl_cost_weight)", "self.ctrl_cost_weight = jnp.array(forward_reward_weight)")),
     M("W-g1-standup-drops-armature", "C20", "C20.5", ("lerax/env/unitree/g1/standup.py", "            armature_scale_range=armature_scale_range,\n", "")),
     M("W-g1-common-mass-from-armature", "C20", "C20.5", ("lerax/env/unitree/g1/base_g1.py", "        self.mass_scale_range = mass_scale_range", "        self.mass_scale_range = armature_scale_range")),
+    M("G-prng-impl-rbg", ["C12", "C11"], ["C12.5", "C11.6"], ("lerax/__init__.py", "", "import jax\n\njax.config.update(\"jax_default_prng_impl\", \"rbg\")\n")),
+    M("G-x64-enabled-in-utils", ["C12", "C11"], ["C12.5", "C11.6"], ("lerax/utils.py", "from __future__ import annotations\n", "from __future__ import annotations\n\nimport jax as _jax\n\n_jax.config.update(\"jax_enable_x64\", True)\n")),
+    M("G-gym-seed-only-first", "C11", "C11.5", ("lerax/compatibility/gym.py", "            seed_int = int(seed_arr)\n            obs, _ = self.env.reset(*args, seed=seed_int, **kwargs)", "            seed_int = int(seed_arr) if self.env.unwrapped._np_random is None else None\n            obs, _ = self.env.reset(*args, seed=seed_int, **kwargs)")),
+    M("G-gym-seed-constant", "C11", "C11.5", ("lerax/compatibility/gym.py", "            seed = jr.randint(key, (), 0, jnp.iinfo(jnp.int32).max)", "            seed = jnp.asarray(0, dtype=int)")),
+    V("G-v-gym-seed-inline", "C11", ("lerax/compatibility/gym.py", "            seed_int = int(seed_arr)\n            obs, _ = self.env.reset(*args, seed=seed_int, **kwargs)", "            obs, _ = self.env.reset(*args, seed=int(seed_arr), **kwargs)")),
     M("C03-disc-nomask", "C03", "C03.3", (RB, "discounts = gamma * gae_lambda * next_non_terminals", "discounts = gamma * gae_lambda")),
     M("C03-boot-nomask", "C03", "C03.3", (RB, "gamma * next_values * next_non_terminals - self.values", "gamma * next_values - self.values")),
     M("C03-forward", "C03", "C03.1", (RB, "(deltas, discounts), reverse=True", "(deltas, discounts), reverse=False")),
